@@ -19,6 +19,7 @@ type xStateSpec struct {
 	Prims  map[string]xStPrim  // library calls: callee text -> primitive
 	Calls  map[string]string   // methods / helpers translated as units: callee text -> unit name
 	Errs   map[string]bool     // calls that yield a non-nil error whatever their arguments (fmt.Errorf)
+	Object string              // the state is this parameter (a pointer to the wrapping type) instead of the receiver
 }
 type xStField struct{ Get, Set string }
 
@@ -109,6 +110,11 @@ func (x *xl) stCall(e ast.Expr, g *xGuards) *stInv {
 	}
 	if u, found := sp.Calls[f]; found {
 		fd := x.xpkg.findFunc(x.unitFunc(u))
+		if dir := x.unitDir(u); fd == nil && dir != "" && x.ld != nil { // a unit of another package
+			if p, err := x.ld.load(dir); err == nil {
+				fd = p.findFunc(x.unitFunc(u))
+			}
+		}
 		if fd == nil {
 			x.fail(c, "unit %s: function not found", u)
 		}
@@ -167,6 +173,14 @@ func (x *xl) unitFunc(name string) string {
 	for i := range x.units {
 		if x.units[i].Name == name {
 			return x.units[i].Func
+		}
+	}
+	return ""
+}
+func (x *xl) unitDir(name string) string {
+	for i := range x.units {
+		if x.units[i].Name == name {
+			return x.units[i].Dir
 		}
 	}
 	return ""
